@@ -6,12 +6,12 @@
 # `lake build SCoda.Props.TokTie` FAILS (or that the generation itself fails loudly).  On the unedited source it must PASS
 # (checked first and last; the last run also restores the generated files).  /repo and /verif are never written.
 #
-#   usage: tools/test_py2lean_tok.sh            (works on the copy of the framework it lives in)
+#   usage: [ORIG=<source tree>] [SCRATCH=<dir>] tools/test_py2lean_tok.sh            (works on the copy of the framework it lives in)
 set -u
 HERE="$(cd "$(dirname "$0")/.." && pwd)"
 SCRATCH="${SCRATCH:-/root/work/t3tok/mut_scratch}"
 PY=/venv/bin/python
-ORIG=/repo
+ORIG="${ORIG:-/repo}"          # the unedited source tree (ORIG=<tree with the repair of D31> for the mutants m13-m15)
 F=tokenisation/notelike_tokenisation.py
 fail=0
 
@@ -84,6 +84,12 @@ mutant m11_info_pos 'cur_pos \+= 1' 'cur_pos += 2' \
   "get_info: positions counted in steps of 2"
 mutant m12_untranslatable 'tokens\.append\(token\)' 'tokens.extend([token])' \
   "tokenise: list.extend (outside the subset: generation must fail loudly)"
+mutant m13_revert_d31 'self\.step_sizes = sorted\(set\(self\.step_sizes\)\)' 'self.step_sizes.sort()' \
+  "__init__: the repair of D31 reverted for step_sizes (in-place .sort(): repeated entries are kept)"
+mutant m14_revert_d31_values 'self\.note_values = sorted\(set\(self\.note_values\)\)' 'self.note_values = sorted(self.note_values)' \
+  "__init__: note_values sorted but not de-duplicated (sorted(x) instead of sorted(set(x)))"
+mutant m15_set_unordered 'self\.step_sizes = sorted\(set\(self\.step_sizes\)\)' 'self.step_sizes = list(set(self.step_sizes))' \
+  "__init__: list(set(x)) — a set has no order (outside the subset: generation must fail loudly)"
 
 echo "== original source again (restores the generated files)"
 r=$(regen_and_build "$ORIG")
